@@ -10,6 +10,9 @@ Four families of observations, all at the API boundary `t(x, ctx)` / `ctx`:
 * pairs      : image and segmentation mask are built from one coordinate code, so the output image names, pixel by pixel,
                the input pixel it shows; the output mask has to carry that pixel's label (padding: image 0, mask -1).
                Single transforms and SemsegTransformWrapper pipelines (fused and separate member access).
+* several calls on ONE transform instance (crops, PatchifyImage, PatchwiseShuffle), each with its own ctx; every
+               (input, output, ctx) triple is verified only after the last call: the record of an earlier call must still
+               tell the truth after later calls.
 * inverses   : Patchify/Unpatchify, PatchifyImage/UnpatchifyImage (+ shuffle undone with the recorded permutation),
                normalise/denormalise.
 """
@@ -61,7 +64,7 @@ ASSUMPTIONS = [
     "denorm(norm(x)) is compared with atol 1e-5 on values in [0,1], std in [0.05, 2]",
 ]
 MONITORS = ["crop_reproduced", "erase_checked", "specaugment_checked", "paired_checked", "pipeline_checked", "inverse_checked",
-            "pipeline_separate_access_with_image_only_draws"]
+            "pipeline_separate_access_with_image_only_draws", "multi_call_series"]
 
 CROP_KINDS = ["random_crop", "two_random_crop", "random_resized_crop", "simple_random_crop"]
 ERASE_KINDS = ["erasing", "specaugment"]
@@ -372,6 +375,8 @@ def _gen_spec(rng, kind):
                  mean=[round(rng.uniform(0, 1), 3) for _ in range(c)], std=[round(rng.uniform(0.05, 2), 3) for _ in range(c)])
     else:
         raise ValueError(kind)
+    if kind in CROP_KINDS or kind in ("patchify_image", "shuffle_chain"):
+        s["calls"] = rng.choice([1, 2, 2, 3, 4])
     hh, ww = s.get("h"), s.get("w")
     if hh is not None and hh * ww == 1:
         s["_trivial"] = True
@@ -469,150 +474,185 @@ def _check_box(run, kind, box, hp, wp, size, what):
     return True
 
 
+def _crop_inputs(s):
+    """one input per call on the same transform instance (same size, different content)"""
+    return [G.make_input(s["io"], s["c"], s["h"], s["w"], s["data_seed"] + 7919 * r) for r in range(s.get("calls", 1))]
+
+
+def _call_series(run, s, t, xs, what, budget=None, on_error=None):
+    """call the SAME transform instance once per input, each call with its own ctx; nothing is verified before the last call
+    has returned (a batch is assembled sample by sample before recorded parameters are used) -> [(x, out, ctx)] or None"""
+    triples = []
+    for r, x in enumerate(xs):
+        ctx = {}
+
+        def go(x=x, ctx=ctx):
+            try:
+                return t(x, ctx)
+            except Exception:
+                if on_error is not None and on_error(ctx):
+                    return _FAILED
+                raise
+        if budget is not None:
+            with StepBudget(budget[0], budget[1], what=what):
+                ok, out = _real(run, go, f"{what} [call {r}]")
+        else:
+            ok, out = _real(run, go, f"{what} [call {r}]")
+        if not ok or out is _FAILED:
+            return None
+        triples.append((x, out, ctx))
+    run.cover("calls_on_one_instance", s["kind"], len(xs))
+    if len(xs) > 1:
+        run.count("multi_call_series")
+    return triples
+
+
 def _crop_case(run, s):
     kind = s["kind"]
     cfg = s["cfg"]
     th, tw = _size2(cfg["size"])
-    x = G.make_input(s["io"], s["c"], s["h"], s["w"], s["data_seed"])
+    xs = _crop_inputs(s)
     kw = dict(size=cfg["size"], padding=cfg["padding"], pad_if_needed=cfg["pad_if_needed"], fill=cfg["fill"], padding_mode=cfg["padding_mode"])
-    padded = G.reference_padded(x, (th, tw), cfg["padding"], cfg["pad_if_needed"], cfg["fill"], cfg["padding_mode"])
-    hp, wp = G.hw_of(padded)
+    hp, wp = G.hw_of(G.reference_padded(xs[0], (th, tw), cfg["padding"], cfg["pad_if_needed"], cfg["fill"], cfg["padding_mode"]))
     if hp < th or wp < tw:  # generator left the stated domain (never seen; not a verdict about the repository)
         run.count("skipped_outside_domain")
         return
     run.cover(kind, s["io"], cfg["rel"], cfg["padding_mode"], cfg["padding"] is not None, _sz_class(th, s["h"]), _sz_class(tw, s["w"]))
-    ctx = {}
     if kind == "random_crop":
-        what = f"KDRandomCrop({kw}) on {s['io']} {s['h']}x{s['w']} seed={s['seed']}"
+        what0 = f"KDRandomCrop({kw}) on {s['io']} {s['h']}x{s['w']} seed={s['seed']}"
         t = KDRandomCrop(**kw).set_rng(_rng(s["seed"]))
-        ok, out = _real(run, lambda: t(x, ctx), what)
-        if not ok:
-            return
-        rec = ctx.get("random_crop")
-        if not isinstance(rec, dict) or not all(k in rec for k in "ijhw"):
-            run.violation("random_crop:ctx-missing", f"{what}: ctx = {ctx!r}")
-            return
-        boxes, outs = [tuple(rec[k] for k in "ijhw")], [out]
+        triples = _call_series(run, s, t, xs, what0)
     else:
         kw.update(overlap_min=s["omin"], overlap_max=s["omax"], tries=s["tries"])
-        what = f"KDTwoRandomCrop({kw}) on {s['io']} {s['h']}x{s['w']} seed={s['seed']}"
+        what0 = f"KDTwoRandomCrop({kw}) on {s['io']} {s['h']}x{s['w']} seed={s['seed']}"
         t = KDTwoRandomCrop(**kw).set_rng(_rng(s["seed"]))
         if "two" not in _codes:
             _codes["two"] = codes_of(KDTwoRandomCrop)
-        budget = 40 * ((s["tries"] or 1) + 3)
-        with StepBudget(budget, _codes["two"], what=what):
-            ok, out = _real(run, lambda: t(x, ctx), what)
-        if not ok:
-            return
-        rec = ctx.get("two_random_crop")
-        keys = ["i0", "j0", "h0", "w0", "i1", "j1", "h1", "w1", "out_of_tries", "overlap"]
-        if not isinstance(rec, dict) or not all(k in rec for k in keys):
-            run.violation("two_random_crop:ctx-missing", f"{what}: ctx = {ctx!r}")
-            return
-        if not isinstance(out, (list, tuple)) or len(out) != 2:
-            run.violation("two_random_crop:output-arity", f"{what}: returned {type(out).__name__} of length {len(out) if hasattr(out, '__len__') else '?'}")
-            return
-        boxes = [tuple(rec[k + "0"] for k in "ijhw"), tuple(rec[k + "1"] for k in "ijhw")]
-        outs = list(out)
-    for n, (box, o) in enumerate(zip(boxes, outs)):
-        if not _check_box(run, kind, box, hp, wp, (th, tw), f"{what} [crop {n}]"):
-            return
-        if G.hw_of(o) != (th, tw):
-            run.violation(f"{kind}:output-size", f"{what} [crop {n}]: output is {G.hw_of(o)}, requested {(th, tw)}")
-            return
-        ref = F.crop(padded, *[int(v) for v in box])
-        run.count("crop_reproduced")
-        if not same(o, ref):
-            run.violation(f"{kind}:ctx-does-not-reproduce", f"{what} [crop {n}]: crop(padded input, {box}) differs from the returned crop")
-            return
-    if kind == "two_random_crop":
-        iou = G.iou_ijhw(boxes[0], boxes[1])
-        run.count("two_crop_iou_checked")
-        lo = 0.0 if s["omin"] is None else s["omin"]
-        hi = 1.0 if s["omax"] is None else s["omax"]
-        run.cover("two_crop_window", lo, hi, s["tries"], bool(rec["out_of_tries"]))
-        if abs(float(rec["overlap"]) - iou) > 1e-9:
-            run.violation("two_random_crop:iou-recorded", f"{what}: recorded overlap {rec['overlap']} but the recorded boxes {boxes} have IoU {iou}")
-        elif not rec["out_of_tries"] and not (lo - 1e-12 <= iou <= hi + 1e-12):
-            key = "two_random_crop:zero-overlap-max-ignored" if s["omax"] == 0.0 else "two_random_crop:iou-window"
-            run.violation(key, f"{what}: out_of_tries=False but IoU {iou:.4f} of boxes {boxes} is outside the requested window [{lo}, {hi}]")
-        elif rec["out_of_tries"] and (s["tries"] is None or (lo <= 0.0 and hi >= 1.0)):
-            run.violation("two_random_crop:spurious-out-of-tries", f"{what}: out_of_tries=True although every pair of boxes satisfies the window / tries is unbounded")
-    run.sample({"kind": kind, "cfg": kw, "input": [s["io"], s["h"], s["w"]], "ctx": rec})
+        triples = _call_series(run, s, t, xs, what0, budget=(40 * ((s["tries"] or 1) + 3), _codes["two"]))
+    if triples is None:
+        return
+    for r, (x, out, ctx) in enumerate(triples):
+        what = f"{what0} [call {r} of {len(triples)}, verified after the last call]"
+        padded = G.reference_padded(x, (th, tw), cfg["padding"], cfg["pad_if_needed"], cfg["fill"], cfg["padding_mode"])
+        if kind == "random_crop":
+            rec = ctx.get("random_crop")
+            if not isinstance(rec, dict) or not all(k in rec for k in "ijhw"):
+                run.violation("random_crop:ctx-missing", f"{what}: ctx = {ctx!r}")
+                return
+            boxes, outs = [tuple(rec[k] for k in "ijhw")], [out]
+        else:
+            rec = ctx.get("two_random_crop")
+            keys = ["i0", "j0", "h0", "w0", "i1", "j1", "h1", "w1", "out_of_tries", "overlap"]
+            if not isinstance(rec, dict) or not all(k in rec for k in keys):
+                run.violation("two_random_crop:ctx-missing", f"{what}: ctx = {ctx!r}")
+                return
+            if not isinstance(out, (list, tuple)) or len(out) != 2:
+                run.violation("two_random_crop:output-arity", f"{what}: returned {type(out).__name__} of length {len(out) if hasattr(out, '__len__') else '?'}")
+                return
+            boxes = [tuple(rec[k + "0"] for k in "ijhw"), tuple(rec[k + "1"] for k in "ijhw")]
+            outs = list(out)
+        for n, (box, o) in enumerate(zip(boxes, outs)):
+            if not _check_box(run, kind, box, hp, wp, (th, tw), f"{what} [crop {n}]"):
+                return
+            if G.hw_of(o) != (th, tw):
+                run.violation(f"{kind}:output-size", f"{what} [crop {n}]: output is {G.hw_of(o)}, requested {(th, tw)}")
+                return
+            ref = F.crop(padded, *[int(v) for v in box])
+            run.count("crop_reproduced")
+            if not same(o, ref):
+                run.violation(f"{kind}:ctx-does-not-reproduce", f"{what} [crop {n}]: crop(padded input, {box}) differs from the returned crop")
+                return
+        if kind == "two_random_crop":
+            iou = G.iou_ijhw(boxes[0], boxes[1])
+            run.count("two_crop_iou_checked")
+            lo = 0.0 if s["omin"] is None else s["omin"]
+            hi = 1.0 if s["omax"] is None else s["omax"]
+            run.cover("two_crop_window", lo, hi, s["tries"], bool(rec["out_of_tries"]))
+            if abs(float(rec["overlap"]) - iou) > 1e-9:
+                run.violation("two_random_crop:iou-recorded", f"{what}: recorded overlap {rec['overlap']} but the recorded boxes {boxes} have IoU {iou}")
+                return
+            elif not rec["out_of_tries"] and not (lo - 1e-12 <= iou <= hi + 1e-12):
+                key = "two_random_crop:zero-overlap-max-ignored" if s["omax"] == 0.0 else "two_random_crop:iou-window"
+                run.violation(key, f"{what}: out_of_tries=False but IoU {iou:.4f} of boxes {boxes} is outside the requested window [{lo}, {hi}]")
+                return
+            elif rec["out_of_tries"] and (s["tries"] is None or (lo <= 0.0 and hi >= 1.0)):
+                run.violation("two_random_crop:spurious-out-of-tries", f"{what}: out_of_tries=True although every pair of boxes satisfies the window / tries is unbounded")
+                return
+    run.sample({"kind": kind, "cfg": kw, "input": [s["io"], s["h"], s["w"]], "calls": len(triples), "ctx": triples[0][2]})
 
 
 def _resized_crop_case(run, s):
-    x = G.make_input(s["io"], s["c"], s["h"], s["w"], s["data_seed"])
+    xs = _crop_inputs(s)
     kw = dict(size=s["size"], scale=tuple(s["scale"]), ratio=tuple(s["ratio"]), interpolation=s["interp"])
-    what = f"KDRandomResizedCrop({kw}) on {s['io']} {s['h']}x{s['w']} seed={s['seed']}"
+    what0 = f"KDRandomResizedCrop({kw}) on {s['io']} {s['h']}x{s['w']} seed={s['seed']}"
     t = KDRandomResizedCrop(**kw).set_rng(_rng(s["seed"]))
-    ctx = {}
 
-    def go():
-        try:
-            return t(x, ctx)
-        except Exception:
-            rec = ctx.get("random_resized_crop")
-            if isinstance(rec, dict) and (rec.get("h", 1) < 1 or rec.get("w", 1) < 1):
-                run.violation("random_resized_crop:zero-size-box",
-                              f"{what}: recorded box {rec} is empty (the resize of the empty crop then fails)")
-                return _FAILED
-            raise
-    ok, out = _real(run, go, what)
-    if not ok or out is _FAILED:
-        return
-    rec = ctx.get("random_resized_crop")
-    if not isinstance(rec, dict) or not all(k in rec for k in ["og_h", "og_w", "i", "j", "h", "w"]):
-        run.violation("random_resized_crop:ctx-missing", f"{what}: ctx = {ctx!r}")
-        return
-    if (rec["og_h"], rec["og_w"]) != (s["h"], s["w"]):
-        run.violation("random_resized_crop:og-size", f"{what}: recorded original size {(rec['og_h'], rec['og_w'])}, input is {(s['h'], s['w'])}")
-        return
-    box = tuple(rec[k] for k in "ijhw")
-    if not _check_box(run, "random_resized_crop", box, s["h"], s["w"], None, what):
+    def empty_box(ctx):
+        rec = ctx.get("random_resized_crop")
+        if isinstance(rec, dict) and (rec.get("h", 1) < 1 or rec.get("w", 1) < 1):
+            run.violation("random_resized_crop:zero-size-box",
+                          f"{what0}: recorded box {rec} is empty (the resize of the empty crop then fails)")
+            return True
+        return False
+    triples = _call_series(run, s, t, xs, what0, on_error=empty_box)
+    if triples is None:
         return
     size = _size2(s["size"])
-    if G.hw_of(out) != size:
-        run.violation("random_resized_crop:output-size", f"{what}: output is {G.hw_of(out)}, requested {size}")
-        return
-    ref = F.resized_crop(x, *[int(v) for v in box], list(size), InterpolationMode(s["interp"]))
-    run.count("crop_reproduced")
-    full = box == (0, 0, s["h"], s["w"])
-    run.cover("random_resized_crop", s["io"], s["interp"], "full" if full else "part", _sz_class(box[2], 2), _sz_class(box[3], 2),
-              _sz_class(s["h"], s["w"]))
-    if not same(out, ref):
-        run.violation("random_resized_crop:ctx-does-not-reproduce", f"{what}: resized_crop(input, {box}, {size}) differs from the returned crop")
-        return
-    run.sample({"kind": "random_resized_crop", "cfg": kw, "input": [s["io"], s["h"], s["w"]], "ctx": rec})
+    for r, (x, out, ctx) in enumerate(triples):
+        what = f"{what0} [call {r} of {len(triples)}, verified after the last call]"
+        rec = ctx.get("random_resized_crop")
+        if not isinstance(rec, dict) or not all(k in rec for k in ["og_h", "og_w", "i", "j", "h", "w"]):
+            run.violation("random_resized_crop:ctx-missing", f"{what}: ctx = {ctx!r}")
+            return
+        if (rec["og_h"], rec["og_w"]) != (s["h"], s["w"]):
+            run.violation("random_resized_crop:og-size", f"{what}: recorded original size {(rec['og_h'], rec['og_w'])}, input is {(s['h'], s['w'])}")
+            return
+        box = tuple(rec[k] for k in "ijhw")
+        if not _check_box(run, "random_resized_crop", box, s["h"], s["w"], None, what):
+            return
+        if G.hw_of(out) != size:
+            run.violation("random_resized_crop:output-size", f"{what}: output is {G.hw_of(out)}, requested {size}")
+            return
+        ref = F.resized_crop(x, *[int(v) for v in box], list(size), InterpolationMode(s["interp"]))
+        run.count("crop_reproduced")
+        full = box == (0, 0, s["h"], s["w"])
+        run.cover("random_resized_crop", s["io"], s["interp"], "full" if full else "part", _sz_class(box[2], 2), _sz_class(box[3], 2),
+                  _sz_class(s["h"], s["w"]))
+        if not same(out, ref):
+            run.violation("random_resized_crop:ctx-does-not-reproduce", f"{what}: resized_crop(input, {box}, {size}) differs from the returned crop")
+            return
+    run.sample({"kind": "random_resized_crop", "cfg": kw, "input": [s["io"], s["h"], s["w"]], "calls": len(triples), "ctx": triples[0][2]})
 
 
 def _simple_crop_case(run, s):
-    x = G.make_input(s["io"], s["c"], s["h"], s["w"], s["data_seed"])
+    xs = _crop_inputs(s)
     kw = dict(size=s["size"], padding=s["padding"], interpolation=s["interp"], padding_mode=s["padding_mode"], fill=s["fill"])
-    what = f"KDSimpleRandomCrop({kw}) on {s['io']} {s['h']}x{s['w']} seed={s['seed']}"
+    what0 = f"KDSimpleRandomCrop({kw}) on {s['io']} {s['h']}x{s['w']} seed={s['seed']}"
     t = KDSimpleRandomCrop(**kw).set_rng(_rng(s["seed"]))
-    ctx = {}
-    ok, out = _real(run, lambda: t(x, ctx), what)
-    if not ok:
-        return
-    rec = ctx.get("random_crop")
-    if not isinstance(rec, dict) or not all(k in rec for k in "ijhw"):
-        run.violation("simple_random_crop:ctx-missing", f"{what}: ctx = {ctx!r}")
+    triples = _call_series(run, s, t, xs, what0)
+    if triples is None:
         return
     size = _size2(s["size"])
-    resized = T.Resize(s["size"], interpolation=InterpolationMode(s["interp"]))(x)
-    padded = resized if s["padding"] is None else F.pad(resized, s["padding"], s["fill"], s["padding_mode"])
-    hp, wp = G.hw_of(padded)
-    box = tuple(rec[k] for k in "ijhw")
-    if not _check_box(run, "simple_random_crop", box, hp, wp, size, what):
-        return
-    if G.hw_of(out) != size:
-        run.violation("simple_random_crop:output-size", f"{what}: output is {G.hw_of(out)}, requested {size}")
-        return
-    run.count("crop_reproduced")
     run.cover("simple_random_crop", s["io"], s["interp"], s["padding_mode"], s["padding"], isinstance(s["size"], int))
-    if not same(out, F.crop(padded, *[int(v) for v in box])):
-        run.violation("simple_random_crop:ctx-does-not-reproduce", f"{what}: crop(pad(resize(input)), {box}) differs from the returned crop")
+    for r, (x, out, ctx) in enumerate(triples):
+        what = f"{what0} [call {r} of {len(triples)}, verified after the last call]"
+        rec = ctx.get("random_crop")
+        if not isinstance(rec, dict) or not all(k in rec for k in "ijhw"):
+            run.violation("simple_random_crop:ctx-missing", f"{what}: ctx = {ctx!r}")
+            return
+        resized = T.Resize(s["size"], interpolation=InterpolationMode(s["interp"]))(x)
+        padded = resized if s["padding"] is None else F.pad(resized, s["padding"], s["fill"], s["padding_mode"])
+        hp, wp = G.hw_of(padded)
+        box = tuple(rec[k] for k in "ijhw")
+        if not _check_box(run, "simple_random_crop", box, hp, wp, size, what):
+            return
+        if G.hw_of(out) != size:
+            run.violation("simple_random_crop:output-size", f"{what}: output is {G.hw_of(out)}, requested {size}")
+            return
+        run.count("crop_reproduced")
+        if not same(out, F.crop(padded, *[int(v) for v in box])):
+            run.violation("simple_random_crop:ctx-does-not-reproduce", f"{what}: crop(pad(resize(input)), {box}) differs from the returned crop")
+            return
 
 
 # ================================================================================================ erasing / spec augment
@@ -1016,49 +1056,66 @@ def _inverse_case(run, s):
             V("inverse:patchify:roundtrip", f"{what}: Unpatchify(Patchify(x)) != x")
         return
 
-    what = f"PatchifyImage({psize}) on {s['io']} {c}x{h}x{w}"
-    ctx = {}
-    ok, p = _real(run, lambda: PatchifyImage(psize)(x, ctx), what)
-    if not ok:
-        return
-    if ctx.get("patchify_lh") != lh or ctx.get("patchify_lw") != lw:
-        V("inverse:patchify_image:ctx", f"{what}: ctx records lh={ctx.get('patchify_lh')}, lw={ctx.get('patchify_lw')}; the image has {lh}x{lw} patches")
-        return
-    if tuple(p.shape) != (c, lh * lw, ph, pw):
-        V("inverse:patchify_image:layout", f"{what}: output shape {tuple(p.shape)}, expected {(c, lh * lw, ph, pw)}")
-        return
-    a, b = s["seed"] % lh, (s["seed"] // 7) % lw
-    if not torch.equal(p[:, a * lw + b], xt[:, a * ph:(a + 1) * ph, b * pw:(b + 1) * pw]):
-        V("inverse:patchify_image:patch-content", f"{what}: patch {a * lw + b} is not block ({a},{b}) of the input")
-        return
-    if kind == "shuffle_chain":
-        sctx = dict(ctx)
-        sh = PatchwiseShuffle().set_rng(_rng(s["seed"]))
-        ok, q = _real(run, lambda: sh(p, sctx), what + " -> PatchwiseShuffle")
+    what0 = f"PatchifyImage({psize}) on {s['io']} {c}x{h}x{w}"
+    # one instance of each transform serves several samples; every sample has its own ctx; nothing is undone / verified
+    # before the last sample went through (a batch is assembled sample by sample)
+    pf, un = PatchifyImage(psize), UnpatchifyImage()
+    sh = PatchwiseShuffle().set_rng(_rng(s["seed"])) if kind == "shuffle_chain" else None
+    series = []
+    for r in range(s.get("calls", 1)):
+        xr = _patch_input(dict(s, data_seed=s["data_seed"] + 7919 * r))
+        xtr = xr.clone() if torch.is_tensor(xr) else F.to_tensor(xr)
+        ctx = {}
+        ok, p = _real(run, lambda: pf(xr, ctx), f"{what0} [call {r}]")
         if not ok:
             return
-        perm = sctx.get("permutation")
-        if perm is None or sorted(np.asarray(perm).tolist()) != list(range(lh * lw)):
-            V("inverse:shuffle:ctx-permutation", f"{what}: recorded permutation {perm!r} is not a permutation of range({lh * lw})")
+        q = None
+        if sh is not None:
+            ok, q = _real(run, lambda: sh(p, ctx), f"{what0} -> PatchwiseShuffle [call {r}]")
+            if not ok:
+                return
+        series.append((xtr, p, q, ctx))
+    run.cover("calls_on_one_instance", kind, len(series))
+    if len(series) > 1:
+        run.count("multi_call_series")
+    for r, (xtr, p, q, ctx) in enumerate(series):
+        what = f"{what0} [call {r} of {len(series)}, verified after the last call]"
+        if ctx.get("patchify_lh") != lh or ctx.get("patchify_lw") != lw:
+            V("inverse:patchify_image:ctx", f"{what}: ctx records lh={ctx.get('patchify_lh')}, lw={ctx.get('patchify_lw')}; the image has {lh}x{lw} patches")
             return
-        if tuple(q.shape) != tuple(p.shape):
-            V("inverse:shuffle:layout", f"{what}: shuffle changed the shape to {tuple(q.shape)}")
+        if tuple(p.shape) != (c, lh * lw, ph, pw):
+            V("inverse:patchify_image:layout", f"{what}: output shape {tuple(p.shape)}, expected {(c, lh * lw, ph, pw)}")
             return
-        perm = np.asarray(perm)
-        undone = torch.empty_like(q)
-        undone[:, torch.from_numpy(perm.astype(np.int64))] = q   # q[:, k] is patch perm[k] of p
-        run.count("shuffle_undone_checked")
-        if not torch.equal(undone, p):
-            V("inverse:shuffle:recorded-permutation-does-not-undo", f"{what}: undoing the shuffle with the recorded permutation does not restore the patches")
+        a, b = (s["seed"] + r) % lh, ((s["seed"] + r) // 7) % lw
+        if not torch.equal(p[:, a * lw + b], xtr[:, a * ph:(a + 1) * ph, b * pw:(b + 1) * pw]):
+            V("inverse:patchify_image:patch-content", f"{what}: patch {a * lw + b} is not block ({a},{b}) of the input")
             return
-        p = undone
-        ctx = sctx
-    ok, y = _real(run, lambda: UnpatchifyImage()(p, ctx), what + " -> UnpatchifyImage")
-    if not ok:
-        return
-    run.count("inverse_checked")
-    if not same(y.contiguous(), xt):
-        V(f"inverse:{kind}:roundtrip", f"{what}: UnpatchifyImage(PatchifyImage(x, ctx), ctx) != x")
+        if sh is not None:
+            perm = ctx.get("permutation")
+            if perm is None or sorted(np.asarray(perm).tolist()) != list(range(lh * lw)):
+                V("inverse:shuffle:ctx-permutation", f"{what}: recorded permutation {perm!r} is not a permutation of range({lh * lw})")
+                return
+            if tuple(q.shape) != tuple(p.shape):
+                V("inverse:shuffle:layout", f"{what}: shuffle changed the shape to {tuple(q.shape)}")
+                return
+            perm = np.asarray(perm)
+            undone = torch.empty_like(q)
+            undone[:, torch.from_numpy(perm.astype(np.int64))] = q   # q[:, k] is patch perm[k] of p
+            run.count("shuffle_undone_checked")
+            if not torch.equal(undone, p):
+                key = "inverse:shuffle:recorded-permutation-does-not-undo"
+                if r < len(series) - 1:
+                    key += ":earlier-call"   # the record of an earlier call no longer tells the truth after later calls
+                V(key, f"{what}: undoing the shuffle with the recorded permutation does not restore the patches")
+                return
+            p = undone
+        ok, y = _real(run, lambda: un(p, ctx), what + " -> UnpatchifyImage")
+        if not ok:
+            return
+        run.count("inverse_checked")
+        if not same(y.contiguous(), xtr):
+            V(f"inverse:{kind}:roundtrip", f"{what}: UnpatchifyImage(PatchifyImage(x, ctx), ctx) != x")
+            return
 
 
 # ================================================================================================ dispatch
